@@ -7,6 +7,11 @@ lean/Gen/DfaCerts.lean is regenerated with one `decide +kernel` theorem per expr
 Tie: for enumerated and random expressions the verified checker is *evaluated* by the driver
 (not kernel-checked) on the automaton the real code built; accept/reject of malformed expressions
 is compared with the model's reading of the grammar + dead-end rule.
+Tie of the constructor as a whole: for every spec of the pools (family, random, enumerated) and for variants with malformed
+content at random positions of the node loop (`schemas.malform_content`, then `schemas.mutate_spec`), `Schema(spec)` against
+`buildSchema` (lean/PM/SchemaBuild.lean): the full dump (`SchemaInfo.dump()`), or the kind of refusal — the table compiler's
+ValueErrors / SyntaxError, the content parser's SyntaxErrors (syntax / unknown name / mixing) and the three other
+exceptions it dies with on truncated input (TypeError, AssertionError, ValueError of int()), the dead-end check.
 Search: the real matcher against an independent Python reading of the grammar (validator.py) on
 child sequences; disagreements are replayed as a child sequence.
 """
@@ -220,6 +225,40 @@ def run(ctx):
                 real = (dfa, rc[0], rc[1], rc[2]) if st_ == "ok" else (dfa, "raised", "raised", "raised")
             creqs.append({"op": "compile", "table": table, "expr": expr})
             cmetas.append((replay, real, name))
+    # ---- the whole constructor: `Schema(spec)` against `buildSchema` (lean/PM/SchemaBuild.lean) — the full dump or the
+    #      kind of refusal, for every spec of the pools and for variants with malformed content at random positions
+    breqs, bmetas = [], []
+
+    def tie_build(spec, schema, tag, labels=()):
+        t = schemas.build_tie(spec, schema)
+        if t is None:
+            ctx.count("schema-build:python-recursion-limit")
+            return
+        req, exp, kind = t
+        ctx.count("build:" + tag + ":" + kind)
+        for lb in labels:
+            ctx.count("build-corner:" + lb + ":" + ("ok" if kind == "ok" else "refused"))
+        if kind == "ok" and any(len(n["dfa"]) >= 4 for n in exp["nodes"]):
+            ctx.count("build:ok-with-4+state-automaton")
+        breqs.append(req)
+        bmetas.append(({"spec": spec, "tag": tag}, exp))
+
+    for name, spec, schema, bundled in pools:
+        tie_build(spec, schema, name)
+    for _ in range(ctx.budget(60, 400)):
+        base = schemas.random_spec(rng)
+        mspec, labels = schemas.malform_content(rng, base)
+        tie_build(mspec, None, "malformed", labels)
+        if rng.random() < 0.5:
+            mspec2, labels2 = schemas.mutate_spec(rng, mspec)
+            tie_build(mspec2, None, "malformed+mutated", labels + labels2)
+    bouts = ctx.driver.run(breqs) if breqs else []
+    for req, (replay, exp), out in zip(breqs, bmetas, bouts):
+        ctx.count("build_requests")
+        if out.get("ok", out) != exp:
+            ctx.mismatch("buildSchema", replay, exp, out)
+        else:
+            ctx.count("build_exact")
     outs = ctx.driver.run(reqs) if reqs else []
     for req, (replay, accepted, dfa, table, bundled, name, tname), out in zip(reqs, metas, outs):
         ctx.count("model_requests")
@@ -227,10 +266,16 @@ def run(ctx):
             ctx.mismatch("c06", replay, "answer", out)
             continue
         o = out["ok"]
+        dead_unknown = o.get("dead") == "unknown"
+        if dead_unknown:
+            # the spec-level exploration of derivative sets did not finish within its allowance (very large expressions of the
+            # thorough tier): no verdict on dead ends from this route — the compiler model's own test (compile tie) still decides
+            ctx.count("spec-dead-end:unknown")
+            o = dict(o, dead=False)
         model_accepts = o["parse"] == "ok" and not o.get("dead")
         ctx.count("class:" + (o["parse"] if o["parse"] != "ok" else ("dead-end" if o.get("dead") else "ok")))
         # every node type's expression must be acceptable for the schema to be built; for enum schemas only doc varies
-        if name == "enum" or accepted:
+        if (name == "enum" or accepted) and not dead_unknown:
             if accepted != model_accepts and name == "enum":
                 ctx.violation("accept-reject", "Schema() and the documented grammar disagree on whether the expression is well-formed",
                               dict(replay, schema_built=accepted, model=o))
@@ -246,6 +291,8 @@ def run(ctx):
                     r["matcher"] = w[1]
                     r["expression"] = w[2]
                     ctx.violation("not-equivalent", "compiled automaton and expression differ (distinguishing child sequence found by the verified checker's search)", r)
+                elif o.get("searchExhausted"):
+                    ctx.count("certificate-search:exhausted")     # no certificate and no witness within the allowance: no verdict
                 else:
                     ctx.mismatch("equivCheck", r, "equivalent", o)
             elif bundled:
